@@ -79,6 +79,14 @@ def polled (w : WSt) (selfWoken progress : Bool) : WSt × List Viol :=
 def unsolicitedPoll (parked woken input wrote : Bool) : List Viol :=
   if parked && !woken && !input && wrote then ["C06 work-was-queued-without-waking-the-connection-task"] else []
 
+/-- C06 (and C16 for `poll_capacity`): a poll on a stream handle that answers `Pending` has parked the
+    caller's waker in the slot the wake-ups go through (`send_task` for capacity / reset waits, `recv_task`
+    for response, body, trailers, interim responses); `registered`: the slot is occupied after the call. -/
+def pendingRegistered (op : String) (registered : Bool) : List Viol :=
+  if registered then []
+  else [s!"C06 {op}-answered-Pending-without-registering-a-waker"] ++
+       (if op == "cn_pollcap" then ["C16 poll_capacity-answered-Pending-without-registering-a-waker"] else [])
+
 /-- C07: once the connection object is gone, no operation on any of its handles may stay pending -/
 def afterEnd (op result streamState : String) : List Viol :=
   if result == "pending" then [s!"C07 {op}-still-pending-after-the-connection-is-gone(stream:{streamState})"] else []
